@@ -124,6 +124,27 @@ thread_local! {
     }) };
 }
 
+thread_local! {
+    static YIELD_AT_SYSCALLS: rstd_cell::Cell<bool> = const { rstd_cell::Cell::new(false) };
+}
+use std::cell as rstd_cell;
+
+/// Concurrent-caller runs: every tracked system call is a scheduling point of the baton scheduler.
+pub fn set_yield_at_syscalls(on: bool) {
+    YIELD_AT_SYSCALLS.with(|c| c.set(on));
+}
+
+fn sys_point(site: &'static str) {
+    let on = YIELD_AT_SYSCALLS.try_with(|c| c.get()).unwrap_or(false);
+    if on && with_armed(|_| ()).is_some() {
+        crate::c14::sched::hook(site);
+    }
+}
+
+fn tracked(fd: c_int) -> bool {
+    with_armed(|w| w.fds.contains(&fd)).unwrap_or(false)
+}
+
 /// Arms the calling thread's world with a plan. Every file this thread opens
 /// for writing until `disarm` is tracked.
 pub fn arm(plan: Plan) {
@@ -214,6 +235,7 @@ unsafe fn do_open(dirfd: c_int, path: *const c_char, flags: c_int, mode: c_uint)
     if !wants_write(flags) {
         return real_openat(dirfd, path, flags, mode);
     }
+    sys_point("sys:open");
     let dec = with_armed(|w| {
         let idx = w.d.opens;
         w.d.opens += 1;
@@ -372,6 +394,9 @@ fn note_accepted(n: ssize_t) {
 
 #[no_mangle]
 pub unsafe extern "C" fn write(fd: c_int, buf: *const c_void, count: size_t) -> ssize_t {
+    if tracked(fd) {
+        sys_point("sys:write");
+    }
     match decide_write(fd, count) {
         None => libc::syscall(libc::SYS_write, fd as c_long, buf, count) as ssize_t,
         Some(Decision::Fail(e)) => {
@@ -471,6 +496,9 @@ pub unsafe extern "C" fn writev(fd: c_int, iov: *const iovec, iovcnt: c_int) -> 
 
 #[no_mangle]
 pub unsafe extern "C" fn close(fd: c_int) -> c_int {
+    if tracked(fd) {
+        sys_point("sys:close");
+    }
     let fault = with_armed(|w| {
         if let Some(pos) = w.fds.iter().position(|&f| f == fd) {
             w.fds.swap_remove(pos);
@@ -524,6 +552,7 @@ pub unsafe extern "C" fn fdatasync(fd: c_int) -> c_int {
 }
 
 fn meta_fault(what: &str) -> Option<c_int> {
+    sys_point("sys:rename_or_truncate");
     with_armed(|w| {
         w.d.metas += 1;
         if let Some(e) = w.plan.meta_err {
